@@ -1370,7 +1370,12 @@ class HTMLTemplateCompiler (TemplateCompiler, FixedHTMLParser.HTMLParser):
 			self.popTag ((tag, None))
 			
 	def handle_data (self, data):
-		self.parseData (html.escape (data, quote=False))
+		if (getattr (self, "cdata_elem", None)):
+			# The content of <script> and <style> is CDATA: it is not parsed
+			# for entities, so it must not be escaped either.
+			self.parseData (data)
+		else:
+			self.parseData (html.escape (data, quote=False))
 		
 	# These two methods are required so that we expand all character and entity references prior to parsing the template.
 	def handle_charref (self, ref):
